@@ -147,7 +147,7 @@ ASYNC_NOTE = ("Trusted: TLC; harness/plans.py (derivation of the series-parallel
               "observation that does not occur is not.")
 check("C12", "TLC model checking of Async.tla (all interleavings of the plan's awaitables; Assoc, OwnContext, NoLostOrDoubleStart) + deterministic gate "
       "driver replaying TLC's schedules into the real asyncio code, comparing pending sets at every step and the final result with the no-yield run",
-      "For 19 (thorough 23) scenarios covering requirement/format evaluation with repeated keys, multi-part AHB expressions, package expansion with repeated, "
+      "For 19 (thorough 24) scenarios covering requirement/format evaluation with repeated keys, multi-part AHB expressions, package expansion with repeated, "
       "nested and right-deep packages, resolver+evaluation, is_valid_expression with context-local data and three concurrent evaluations whose values and hint "
       "texts come from their own context-local data (each result must be the one the evaluation has alone), TLC explores every completion order of the derived "
       "plan and checks that positional gathering pairs every key with its own value and that every awaitable reads its own task's context; two "
